@@ -218,6 +218,52 @@ fn typed_history(ctx: &mut Ctx, hist: usize) {
     }
 }
 
+/// Two DIFFERENT types with the same identifier (sibling blocks of one function: `std::any::type_name` is the same
+/// for both), different schemas, used one after the other: each typed writer/reader must carry the header of ITS
+/// schema.
+macro_rules! same_named_event {
+    ($ctx:expr, $hist:expr, $step:expr, $term:expr, { $($field:ident : $ty:ident = $val:expr),* }, $value:expr) => {{
+        #[derive(Serialize, Deserialize, AvroSchema, Clone, PartialEq, Debug)]
+        struct Event { $($field: $ty),* }
+        let schema = Event::get_schema();
+        let canon = schema.canonical_form().into_bytes();
+        let m = Event { $($field: $val),* };
+        let mut sink: Vec<u8> = vec![];
+        let r = guarded(std::panic::AssertUnwindSafe(|| SpecificSingleObjectWriter::<Event>::new().and_then(|w| w.write_ref(&m, &mut sink))));
+        let (res, returned, panicked) = match &r { Ok(Ok(n)) => ("ok", *n, false), Ok(Err(_)) => ("err", 0, false), Err(_) => ("err", 0, true) };
+        let rg = match guarded(std::panic::AssertUnwindSafe(|| {
+            let rd = GenericSingleObjectReader::builder().schema(schema.clone()).build()?;
+            let mut sl: &[u8] = &sink;
+            rd.read_value(&mut sl)
+        })) {
+            Ok(Ok(v)) => json!({"ok":true,"v":value_to_vterm(&v)}),
+            _ => json!({"ok":false,"v":none_term()}),
+        };
+        let rt = guarded(std::panic::AssertUnwindSafe(|| {
+            let rd = SpecificSingleObjectReader::<Event>::new()?;
+            let mut sl: &[u8] = &sink;
+            rd.read(&mut sl).map(|x| x == m)
+        }));
+        $ctx.emit(json!({"ev":"so-write","hist":small($hist),"step":small($step),"expect":"ok","s":$term,"canon":bytes_j(&canon),
+                         "v":value_to_vterm(&$value),"res":res,"panic":panicked,"counted":true,"returned":small(returned),"msg":bytes_j(&sink),
+                         "read_generic":rg,"typed":true,"read_typed_ok":matches!(rt, Ok(Ok(true))),"api":"write_ref-same-named-type"}));
+        sink
+    }};
+}
+
+fn same_named_types(ctx: &mut Ctx, hist: usize) {
+    let t1 = json!({"k":"record","name":"Event","fields":[{"name":"id","type":{"k":"long"}}]});
+    let t2 = json!({"k":"record","name":"Event","fields":[{"name":"id","type":{"k":"long"}},{"name":"source","type":{"k":"string"}}]});
+    let v1 = Value::Record(vec![("id".into(), Value::Long(7))]);
+    let v2 = Value::Record(vec![("id".into(), Value::Long(8)), ("source".into(), Value::String("sensor".into()))]);
+    let _a = same_named_event!(ctx, hist, 0, t1, { id: i64 = 7 }, v1);
+    let _b = same_named_event!(ctx, hist, 1, t2, { id: i64 = 8, source: String = "sensor".to_string() }, v2);
+    // and the first one again, after the second
+    let v1b = Value::Record(vec![("id".into(), Value::Long(9))]);
+    let t1b = json!({"k":"record","name":"Event","fields":[{"name":"id","type":{"k":"long"}}]});
+    let _c = same_named_event!(ctx, hist, 2, t1b, { id: i64 = 9 }, v1b);
+}
+
 fn cmd_run(a: &Args) -> i32 {
     let lines = read_lines(a.req("scn"));
     let mut out = open_out(a.req("out"));
@@ -236,6 +282,7 @@ fn cmd_run(a: &Args) -> i32 {
     }
     typed_history(&mut ctx, groups.len());
     glue_history(&mut ctx, groups.len() + 1);
+    same_named_types(&mut ctx, groups.len() + 2);
     out.flush().unwrap();
     0
 }
